@@ -26,7 +26,7 @@ SPEC_P = dict(n_species=(1, 4), n_reactions=(0, 3), max_order=3, max_cells=9, gr
 
 
 def n_cases(tier):
-    return 450 if tier == "quick" else 24000
+    return 450 if tier == "quick" else 8000
 
 
 def timeout(tier):
